@@ -23,9 +23,11 @@ THEOREMS = [
     # whole-tree theorem by simulation through the queue (serial composites, sync + delayed leaves)
     'Tbox.C17.C17_result_matches_doc_serial', 'Tbox.C17.gen', 'Tbox.C17.good_all', 'Tbox.C17.runU_embed', 'Tbox.C17.step_embed',
     # liveness of that class: progress measure `cost`
-    'Tbox.C17.C17_finishes_exactly_once', 'Tbox.C17.C17_eval_total_serial', 'Tbox.C17.gen_live', 'Tbox.C17.live_all',
+    'Tbox.C17.C17_finishes_exactly_once', 'Tbox.C17.gen_live', 'Tbox.C17.live_all',
+    # M4: composites that reset and re-run children (Loop, LoopIf, Repeat); skeleton preservation
+    'Tbox.C17.C17_loop_never_finishes', 'Tbox.C17.C17_skeleton_preserved', 'Tbox.C17.genR', 'Tbox.C17.step_sk', 'Tbox.C17.both_size',
     # ActionExecutor
-    'Tbox.C17.C17_exec_one_at_a_time', 'Tbox.C17.C17_exec_heads_only', 'Tbox.C17.Exec.sched_inv', 'Tbox.C17.Exec.xstep_inv',
+    'Tbox.C17.C17_exec_one_at_a_time', 'Tbox.C17.C17_exec_heads_only', 'Tbox.C17.C17_exec_highest_priority_first', 'Tbox.C17.Exec.sched_hp', 'Tbox.C17.Exec.sched_inv', 'Tbox.C17.Exec.xstep_inv',
     # the inductive steps themselves
     'Tbox.C17.bstep_inv', 'Tbox.C17.step_wf', 'Tbox.C17.reachable_wf', 'Tbox.C17.seq_drive_aux',
 ]
@@ -290,10 +292,10 @@ LEVEL_TEXT = ('Lean 4 theorems over an executable model of the action framework.
               'differential execution of generated trees and control scripts on the real epoll loop under a virtual clock; the driver also '
               'evaluates WF and the documented result (reference evaluator, all composites) on every visited state')
 LEVEL_NOTE = ('whole-tree "root result = documented meaning, exactly one finish notification, leaves called in the documented order" is PROVED through '
-              'the deferred queue for trees of Sequence/IfElse/IfThen/Switch/Wrapper/Composite over Function and Sleep leaves (C17_result_matches_doc_serial, '
-              'safety for every pass/clock sequence; C17_finishes_exactly_once, liveness: after cost(t)+1 big clock steps / passes in any fair schedule the trace IS the complete visit order + one finish); OPEN: Loop/LoopIf/Repeat, Parallel (compared with the evaluator on '
+              'the deferred queue for trees of Sequence/IfElse/IfThen/Switch/Wrapper/Composite/Loop/LoopIf/Repeat(n>=1) over Function and Sleep leaves (C17_result_matches_doc_serial, '
+              'safety for every pass/clock sequence; C17_finishes_exactly_once, liveness: after cost(t)+1 big clock steps / passes in any fair schedule the trace IS the complete visit order + one finish, when the evaluator terminates; C17_loop_never_finishes: otherwise no finish notification ever; C17_skeleton_preserved for every op sequence); OPEN: order of the calls of a non-terminating loop, Parallel, timeouts (compared with the evaluator on '
               'every control-free generated run for all composites); trace equivalence '
-              'of a reset tree with a fresh one (Clean + WF after reset are proved); ActionExecutor: highest-priority-first and callbacks-once monitored, not proved; trusted: Lean kernel, '
+              'of a reset tree with a fresh one (Clean + WF after reset are proved); ActionExecutor: one-at-a-time, heads-only and highest-priority-first proved; callbacks-once monitored, not proved; trusted: Lean kernel, '
               'hand-written model, harness, generator coverage (measured)')
 TECHNIQUE = 'Lean 4 invariant/structural-induction proofs over an action-tree model + model/implementation correspondence on the real loop'
 DESIGN_REF = 'DESIGN.md §6 C17, §7 row 15'
